@@ -84,6 +84,49 @@ pub fn pst13_msm(cfg: &Cfg) -> Verdict {
     Verdict::Hold
 }
 
+/// PST13 on polynomials built through the public fields of `SparsePolynomial` in a non-canonical form (terms in
+/// descending order, one monomial split over two entries): the commitment must still be the key-weighted sum
+pub fn pst13_noncanonical(cfg: &Cfg) -> Verdict {
+    use ark_poly::multivariate::{SparsePolynomial, SparseTerm};
+    let (ck, _vk, _rng, pp) = match keys::<Pst13>(cfg) {
+        Ok(k) => k,
+        Err(v) => return v,
+    };
+    let monos = monomials(cfg.sz.num_vars, 2);
+    let coeffs: Vec<SF> = (0..monos.len()).map(|j| sym(&format!("c{}", j))).collect();
+    let extra = sym("split");
+    let mut want = SF::zero();
+    for (cj, m) in coeffs.iter().zip(monos.iter()) {
+        match pp.powers_of_g.get(&SparseTerm::new(m.clone())) {
+            Some(g) => want += *cj * g.0,
+            None => return Verdict::viol("keyset", format!("no parameter element for monomial {:?}", m)),
+        }
+    }
+    let canonical: Vec<(SF, SparseTerm)> = coeffs.iter().zip(monos.iter()).map(|(c, m)| (*c, SparseTerm::new(m.clone()))).collect();
+    let mut reversed = canonical.clone();
+    reversed.reverse();
+    // monomial 1 carries c1 - split and split in two separate entries
+    let mut split = canonical.clone();
+    split[1].0 -= extra;
+    split.push((extra, canonical[1].1.clone()));
+    let mut rotated = canonical.clone();
+    rotated.rotate_left(2);
+    for (what, terms) in [("descending term order", reversed), ("one monomial split over two entries", split), ("rotated term order", rotated)] {
+        let p = SparsePolynomial { num_vars: cfg.sz.num_vars, terms };
+        let lp = LabeledPolynomial::new("p".into(), p, None, None);
+        let comms = match catch(|| Pst13PC::commit(&ck, [&lp], None)) {
+            Ok(Ok((c, _))) => c,
+            // refusing a non-canonical representation is not a wrong commitment
+            _ => continue,
+        };
+        let got = terms_of(comms[0].commitment());
+        if got.len() != 1 || got[0] != want {
+            return Verdict::viol("msm-representation", format!("pst13 commitment of a polynomial given with {} is not the key-weighted sum of its coefficients", what));
+        }
+    }
+    Verdict::Hold
+}
+
 /// Hyrax: row r of the commitment = sum_j M[r][j] * com_key[j] + rand_r * h, with M[r][j] = evals[j*dim + r]
 pub fn hyrax_rows(cfg: &Cfg) -> Verdict {
     let w = match build::<Hyrax>(cfg) {
